@@ -25,17 +25,17 @@ VARIABLES l,      \* next line
 
 tvars == <<l, w, skip, viol, seqno>>
 
-V(cls, d) == [l |-> l, seq |-> seqno, cls |-> cls, d |-> d]
+V(cls, d) == [l |-> l, seq |-> seqno, cls |-> cls, d |-> ToString(d)]
 
-FltOf(j) == [with |-> SetOf(j.with), without |-> SetOf(j.without), excl |-> j.excl, ft |-> j.ft, qt |-> j.qt]
+FltOf(j) == [with |-> SetOf(j.with), without |-> SetOf(j.without), excl |-> j.excl, ft |-> Fn(j.ft), qt |-> Fn(j.qt)]
 
 \* The logged projection as a layer-A entity map
 LoggedEnt(st) ==
     [h \in {st.ents[i].e : i \in DOMAIN st.ents} |->
         LET r == st.ents[CHOOSE i \in DOMAIN st.ents : st.ents[i].e = h] IN
-        [c |-> SetOf(r.c), v |-> r.v, t |-> r.t]]
+        [c |-> SetOf(r.c), v |-> Fn(r.v), t |-> Fn(r.t)]]
 
-RelTouched(ev) == (SetOf(ev.add) \cup SetOf(ev.rem)) \cap w.rel # {} \/ DOMAIN ev.tg # {}
+RelTouched(ev) == (SetOf(ev.add) \cup SetOf(ev.rem)) \cap w.rel # {} \/ DOMAIN Fn(ev.tg) # {}
                   \/ ev.op \in {"SetRel", "SetRelBatch", "Kill", "KillBatch"}
 
 (***************************************************************************)
@@ -47,53 +47,57 @@ RelTouched(ev) == (SetOf(ev.add) \cup SetOf(ev.rem)) \cap w.rel # {} \/ DOMAIN e
 (***************************************************************************)
 BVals(ev, S, C) ==
     [x \in S |-> IF \E i \in DOMAIN ev.bvals : ev.bvals[i].e = x
-                 THEN ev.bvals[CHOOSE i \in DOMAIN ev.bvals : ev.bvals[i].e = x].v
+                 THEN Fn(ev.bvals[CHOOSE i \in DOMAIN ev.bvals : ev.bvals[i].e = x].v)
                  ELSE [c \in C |-> 0]]
 
 Expect(ev) ==
-    LET add == SetOf(ev.add) rem == SetOf(ev.rem) e == ev.e flt == FltOf(ev.flt)
+    LET add == SetOf(ev.add) rem == SetOf(ev.rem) e == ev.e flt == FltOf(ev.flt) etg == Fn(ev.tg) evals == Fn(ev.vals)
         S == IF FilterOK(w, flt) THEN Select(w, flt) ELSE {}
-        R(pre, w2, foot) == [def |-> TRUE, pre |-> pre, w2 |-> w2, foot |-> foot]
+        isB == ev.op \in {"AddBatch", "RemoveBatch", "ExchangeBatch", "SetRelBatch", "KillBatch"}
+        \* a batch with an empty selection and invalid arguments: the properties do not say whether it panics
+        R(pre, w2, foot) == [def |-> ~(isB /\ ~pre /\ S = {} /\ ~Locked(w)), pre |-> pre, w2 |-> w2, foot |-> foot]
     IN
     CASE ev.op = "New" ->
-            IF PreNew(w, add, ev.tg) /\ ~ev.panic
-            THEN R(TRUE, DoNew(w, ev.ret[1], add, ev.vals, ev.tg), {ev.ret[1]})
-            ELSE R(PreNew(w, add, ev.tg), w, {})
+            IF PreNew(w, add, etg) /\ ~ev.panic
+            THEN R(TRUE, DoNew(w, ev.ret[1], add, evals, etg), {ev.ret[1]})
+            ELSE R(PreNew(w, add, etg), w, {})
       [] ev.op = "NewBatch" ->
-            IF PreNew(w, add, ev.tg) /\ ~ev.panic
+            IF PreNew(w, add, etg) /\ ~ev.panic
             THEN LET RECURSIVE Go(_, _)
                      Go(ww, i) == IF i > Len(ev.ret) THEN ww
-                                  ELSE Go(DoNew(ww, ev.ret[i], add, BVals(ev, {ev.ret[i]}, add)[ev.ret[i]], ev.tg), i + 1)
+                                  ELSE Go(DoNew(ww, ev.ret[i], add, BVals(ev, {ev.ret[i]}, add)[ev.ret[i]], etg), i + 1)
                  IN R(TRUE, Go(w, 1), SetOf(ev.ret))
-            ELSE R(PreNew(w, add, ev.tg), w, {})
+            ELSE R(PreNew(w, add, etg), w, {})
       [] ev.op = "Copy" ->
             IF PreCopy(w, e) /\ ~ev.panic
             THEN R(TRUE, DoCopy(w, ev.ret[1], e), {ev.ret[1]})
             ELSE R(PreCopy(w, e), w, {})
       [] ev.op = "Add" ->
-            IF PreAdd(w, e, add, ev.tg) THEN R(TRUE, DoAdd(w, e, add, ev.vals, ev.tg), {e}) ELSE R(FALSE, w, {})
+            IF PreAdd(w, e, add, etg) THEN R(TRUE, DoAdd(w, e, add, evals, etg), {e}) ELSE R(FALSE, w, {})
       [] ev.op = "Remove" ->
             IF PreRemove(w, e, rem) THEN R(TRUE, DoRemove(w, e, rem), {e}) ELSE R(FALSE, w, {})
       [] ev.op = "Exchange" ->
-            IF PreExchange(w, e, add, rem, ev.tg)
-            THEN R(TRUE, DoExchange(w, e, add, rem, ev.vals, ev.tg), {e}) ELSE R(FALSE, w, {})
+            IF PreExchange(w, e, add, rem, etg)
+            THEN R(TRUE, DoExchange(w, e, add, rem, evals, etg), {e}) ELSE R(FALSE, w, {})
       [] ev.op = "Set" ->
-            IF PreSet(w, e, add) THEN R(TRUE, DoSet(w, e, ev.vals), {e}) ELSE R(FALSE, w, {})
+            IF PreSet(w, e, add) THEN R(TRUE, DoSet(w, e, evals), {e}) ELSE R(FALSE, w, {})
       [] ev.op = "SetRel" ->
-            IF PreSetRel(w, e, ev.tg) THEN R(TRUE, DoSetRel(w, e, ev.tg), {e}) ELSE R(FALSE, w, {})
+            IF PreSetRel(w, e, etg) THEN R(TRUE, DoSetRel(w, e, etg), {e}) ELSE R(FALSE, w, {})
+      [] ev.op = "Read" ->   \* checked read access (Get / Has / GetRelation / IDs): only dead handles are probed
+            IF IsAlive(w, e) THEN [def |-> FALSE, pre |-> TRUE, w2 |-> w, foot |-> {}] ELSE R(FALSE, w, {})
       [] ev.op = "Kill" ->
             IF PreKill(w, e) THEN R(TRUE, DoKill(w, e), {e}) ELSE R(FALSE, w, {})
       [] ev.op = "AddBatch" ->
-            IF PreAddBatch(w, flt, add, ev.tg)
-            THEN R(TRUE, DoExchangeBatch(w, S, add, {}, BVals(ev, S, add), ev.tg), S) ELSE R(FALSE, w, {})
+            IF PreAddBatch(w, flt, add, etg)
+            THEN R(TRUE, DoExchangeBatch(w, S, add, {}, BVals(ev, S, add), etg), S) ELSE R(FALSE, w, {})
       [] ev.op = "RemoveBatch" ->
             IF PreRemoveBatch(w, flt, rem)
             THEN R(TRUE, DoExchangeBatch(w, S, {}, rem, [x \in S |-> EmptyFn], EmptyFn), S) ELSE R(FALSE, w, {})
       [] ev.op = "ExchangeBatch" ->
-            IF PreExchangeBatch(w, flt, add, rem, ev.tg)
-            THEN R(TRUE, DoExchangeBatch(w, S, add, rem, BVals(ev, S, add), ev.tg), S) ELSE R(FALSE, w, {})
+            IF PreExchangeBatch(w, flt, add, rem, etg)
+            THEN R(TRUE, DoExchangeBatch(w, S, add, rem, BVals(ev, S, add), etg), S) ELSE R(FALSE, w, {})
       [] ev.op = "SetRelBatch" ->
-            IF PreSetRelBatch(w, flt, ev.tg) THEN R(TRUE, DoSetRelBatch(w, S, ev.tg), S) ELSE R(FALSE, w, {})
+            IF PreSetRelBatch(w, flt, etg) THEN R(TRUE, DoSetRelBatch(w, S, etg), S) ELSE R(FALSE, w, {})
       [] ev.op = "KillBatch" ->
             IF PreKillBatch(w, flt) THEN R(TRUE, DoKillSet(w, S), S) ELSE R(FALSE, w, {})
       [] ev.op = "RegF" ->
@@ -132,7 +136,10 @@ CheckOp(ev) ==
         vAlive == {V("C02.alive-mismatch", h) : h \in {g \in SetOf(ev.st.alive) : g \notin shouldLive}}
                   \cup {V("C02.alive-mismatch", h) : h \in {g \in shouldLive : g \notin SetOf(ev.st.alive)}}
                   \cup {V("C02.alive-mismatch", h) : h \in {g \in SetOf(ev.st.dead) : g \in shouldLive}}
-        vCount == IF ev.st.used # Cardinality(shouldLive) THEN {V("C02.count", ev.st.used)} ELSE {}
+        vCount == IF ev.st.used # Cardinality(shouldLive)
+                  THEN {V(IF ~x.pre \/ ev.panic THEN (IF lockMis THEN "C07.effect-after-panic" ELSE "C10.state-changed")
+                          ELSE "C02.count", ev.st.used)}
+                  ELSE {}
         common == (DOMAIN got) \cap shouldLive
         Cls(h, kind) ==
             IF ~x.pre \/ ev.panic THEN (IF lockMis THEN "C07.effect-after-panic" ELSE "C10.state-changed")
@@ -162,7 +169,8 @@ CheckOp(ev) ==
                     \cup {V("C06.callback-count", h) : h \in {g \in x.foot \ must : cnt(g) > 1}}
                     \cup {V("C06.callback-count", es[i]) : i \in {j \in DOMAIN es : es[j] \notin x.foot}}
                ELSE {}
-    IN [def |-> x.def, next |-> exp, vs |-> vPanic \cup vDup \cup vAlive \cup vCount \cup vEnt \cup vLock \cup vCb]
+    IN [def |-> x.def, next |-> exp,
+        vs |-> IF x.def THEN vPanic \cup vDup \cup vAlive \cup vCount \cup vEnt \cup vLock \cup vCb ELSE {}]
 
 (***************************************************************************)
 (* Probes: a query / Count / EntityAt battery run by the executor.         *)
